@@ -103,3 +103,47 @@ def _numinv(spec, model):
         return {'confirmed': not close(back, target, rel=1e-5), 'observed': {'solver_x': r, 'forward': back}, 'expected': target}
     except Exception as exc:
         return {'confirmed': False, 'observed': f"{type(exc).__name__}: {exc}"}
+
+
+def order_cases():
+    """numerically inverted models, real solver: the inverse evaluated after other evaluations (descending and mixed orders)
+    equals the inverse evaluated first on a fresh model object"""
+    from pgv.checks.c10 import NUM_INVERSE
+    from pygaps.utilities.exceptions import CalculationError
+    sets = {'TSLangmuir': {'n_m1': 4.0, 'K1': 30.0, 'n_m2': 3.0, 'K2': 2.0, 'n_m3': 2.0, 'K3': 0.1},
+            'TemkinApprox': {'n_m': 5.0, 'K': 8.0, 'tht': 0.3}, 'JensenSeaton': {'K': 20.0, 'a': 6.0, 'b': 0.15, 'c': 1.4}}
+    for name, params in sets.items():
+        xs = [40.0, 0.004, 0.02, 5.0, 0.25, 0.9]
+        m0 = _model(name, None, params)
+        targets = [float(m0.loading(x)) for x in xs]
+        fresh = []
+        for t in targets:
+            try:
+                fresh.append(float(numpy.atleast_1d(_model(name, None, params).pressure(t))[0]))
+            except CalculationError:
+                fresh.append(None)
+        used = _model(name, None, params)
+        seq = []
+        for t in targets:
+            try:
+                seq.append(float(numpy.atleast_1d(used.pressure(t))[0]))
+            except CalculationError:
+                seq.append('CalculationError')
+        bad = [(x, a, b) for x, a, b in zip(xs, fresh, seq) if a is not None and not (isinstance(b, float) and close(a, b, rel=1e-6, abs_=1e-9))]
+        inv = [(x, a) for x, a in zip(xs, fresh) if a is not None and not close(a, x, rel=1e-4, abs_=1e-7)]
+        yield {'name': f"inverse_independent_of_evaluation_order|{name}", 'ok': not bad, 'detail': str(bad[:3])}
+        yield {'name': f"inverse_of_forward_on_fresh_model|{name}", 'ok': not inv, 'detail': str(inv[:3])}
+
+
+@replayer('c10.numinv_history')
+def _numinv_history(spec, model):
+    bad = [r for r in order_cases() if not r['ok'] and r['name'].endswith('|' + spec['model'])]
+    return {'confirmed': bool(bad), 'observed': [(b['name'], b['detail']) for b in bad[:2]], 'expected': 'same pressure whatever was evaluated before'}
+
+
+@replayer('c10.order_case')
+def _order_case(spec, model):
+    for r in order_cases():
+        if r['name'] == spec['name']:
+            return {'confirmed': not r['ok'], 'observed': r['detail']}
+    return {'confirmed': False, 'error': 'case not found'}
